@@ -88,6 +88,24 @@ theorem conversion_total (env : Env) (cfg : Cfg) (cat : Catalogue) (input : List
   | none => simp [he] at h
   | some r => exact ⟨r.1, r.2, rfl, _, rfl⟩
 
+/-- an arc whose chord is longer than its diameter has no centre: `Arc::center` computes
+`sqrt` of a negative number (NaN) for it -/
+def arcWithoutCentre : Frag → Bool
+  | .arc s e r _ _ => decide ((e.x - s.x) * (e.x - s.x) + (e.y - s.y) * (e.y - s.y) > 4 * r * r)
+  | _ => false
+
+/-- **the arcs of the regenerated tables that have no centre**: exactly one glyph, `⤹` (U+2939,
+`arc(j, r, unit2)`: chord 1.118, diameter 1). Its NaN centre is consumed by `f32 ==` comparisons only
+(`is_aabb_right_angle_arc`), which are false on NaN — the model says "no right-angle arc" for it, the
+byte-level correspondence agrees. A comparison through `Point::cmp` / `util::ord` would reach the
+`unreachable!` there (outside the model: it has no NaN); a second such arc in the tables breaks this
+theorem. -/
+theorem arcs_without_centre_in_the_tables :
+    (Gen.unicodeTable.filter fun g => g.2.any arcWithoutCentre).map (·.1) = ['⤹'] ∧
+    Gen.asciiTable.all (fun en => en.behavior.all fun row => row.2.all fun f => !arcWithoutCentre f) = true ∧
+    Gen.asciiTable.all (fun en => en.signature.all fun row => row.2.all fun f => !arcWithoutCentre f) = true := by
+  decide +kernel
+
 /-- … stated for `Model/Convert.convertDoc`, the function the driver serializes for the byte-level
 correspondence: it returns a document for every text, environment, settings value and catalogue -/
 theorem whole_conversion_returns (env : Env) (cfg : Cfg) (cat : Catalogue) (input : List Char) :
